@@ -514,7 +514,8 @@ def run(ctx):
     from rules import C20 as _c20
     from ovsa.engine import Ctx as _Ctx
     sub20 = _Ctx("C20", prog, ctx.root, "quick")
-    getattr(_c20, "_run_base", _c20.run)(sub20)
+    from rules.round3 import run_lender as _run_lender
+    _run_lender(_c20, sub20, ctx)
     n20 = 0
     for i_ in sub20.instances:
         if i_["rule"] == "R20.1" and ("rows" in i_["inst"] or "physical-cpus-to-rows" in i_["inst"]):
@@ -524,7 +525,7 @@ def run(ctx):
             else:
                 ctx.fail("R13.4", "breakdown:" + i_["inst"], i_["where"], i_["what"] +
                          " (records would be written on rows outside the count declared in the header)")
-    ctx.need(n20 >= 2, "R13.4: breakdown row instances not found (%d)" % n20)
+    ctx.need(n20 >= 2 or getattr(sub20, "lender_broken", None), "R13.4: breakdown row instances not found (%d)" % n20)
     for o in sorted(declared_rows):
         if o in ("cpu", "thread"):
             continue
@@ -539,6 +540,12 @@ _run_base = run
 
 
 def run(ctx):
+    ctx.rule("R13.10", "every label of a model's value table reaches the .pcf: create_values, evaluated on 40 labelled "
+             "entries, hands each to pcf_add_value; in every label table of the tree all labelled entries come before the "
+             "first entry without label, where create_values stops")
+    from rules import round6
+    round6.check_create_values(ctx, "R13.10")
+    round6.check_label_tables_terminated(ctx, "R13.10")
     _run_base(ctx)
     prog = ctx.prog
     ctx.rule("R13.7", "the rows come in the documented order: the comparators that order processes, threads, CPUs and "
